@@ -29,7 +29,7 @@ Repaired, now positive theorems (the witnesses stay in the harness corpus under 
 load balancer and the user-defined split / fail-on-marker plugins (`C06.builtin_plugins_keep_objects`,
 `C06.user_split_and_fail_keep_objects`), false of the user-defined invariant breaker
 (`invariant_breaker_is_answered_with_the_query`: it erases a query it answers with `[]`), a property of the
-recorded data for table plugins.  `error_echoes_request` needs no hypothesis any more (fix c053049: an invariant
+recorded data for table plugins.  `error_echoes_request` needs no hypothesis any more (fix 755333a: an invariant
 error names the original query).
 
 Where the code still deviates (finding with counterexample; key as in the harness oracle):
@@ -196,7 +196,7 @@ theorem non_object_query_echoed (plugins : List Plugin) (q : Json) (h : q.isObje
 /-- **Every error response of the input stage echoes the request** — for every plugin list, user-defined and
 invariant-breaking plugins included: the query itself when it is not an object; the query `x` — `q`, or one of
 the queries the earlier plugins made of `q` — on which plugin `p` failed, as `p` left it (or the original
-query); the original query when a plugin broke the invariant (fix c053049).  The placeholder request is gone. -/
+query); the original query when a plugin broke the invariant (fix 755333a).  The placeholder request is gone. -/
 theorem error_echoes_request (plugins : List Plugin) (q e : Json) (h : prepT plugins q = .error e) :
     (q.isObject = false ∧ e = .obj [("request", q), ("error", .str "UnexpectedQueryStructure")]) ∨
     (∃ pre p post xs x pe req, plugins = pre ++ p :: post ∧
@@ -289,7 +289,7 @@ theorem own_plugins_fail_clean (p : Plugin) (q : Json) (e : PErr) (h : processT 
     split at h <;> simp at h
 
 /-- a plugin that breaks the invariant does not break the pipeline: it never panics; a scalar left behind is
-answered with an invariant error that names the query (fix c053049: it named the placeholder, key
+answered with an invariant error that names the query (fix 755333a: it named the placeholder, key
 `pipeline/invariant-error-loses-request`).  `every_query_answered` still needs its hypothesis: a plugin that
 answers with the empty array erases the query (no expanded query, no response). -/
 theorem invariant_breaker_is_answered_with_the_query (respond : Json → Json) :
